@@ -212,6 +212,29 @@ type GroupMapCase struct {
 
 func genGroupMapCase(t *rapid.T) *GroupMapCase {
 	c := &GroupMapCase{Carrier: rapid.SampledFrom([]string{"map-string", "map-int", "listmap", "url", "urlenc"}).Draw(t, "carrier"), Rules: map[string]string{}}
+	if rapid.IntRange(0, 19).Draw(t, "manyGroups") == 9 {
+		// dozens of groups in one object, interleaved: group i has the members k<i> and k<2n-1-i>, so the
+		// oldest groups get their second member after all the others were created
+		n := rapid.SampledFrom([]int{16, 17, 18, 33, 40}).Draw(t, "nManyGroups")
+		kind := rapid.SampledFrom([]string{"either", "botheq"}).Draw(t, "manyKind")
+		pool := []string{"", "", "x", "y"}
+		if c.Carrier == "map-int" {
+			pool = []string{"0", "0", "1", "2"}
+		}
+		m := map[string]string{}
+		for i := 0; i < n; i++ {
+			a, b := fmt.Sprintf("k%02d", i), fmt.Sprintf("k%02d", 2*n-1-i)
+			item := fmt.Sprintf("%s=g%d", kind, i)
+			c.Rules[a], c.Rules[b] = item, item
+			m[a], m[b] = rapid.SampledFrom(pool).Draw(t, "mv"), rapid.SampledFrom(pool).Draw(t, "mv2")
+			c.Order = append(c.Order, a)
+		}
+		for i := n; i < 2*n; i++ {
+			c.Order = append(c.Order, fmt.Sprintf("k%02d", i))
+		}
+		c.Maps = []map[string]string{m}
+		return c
+	}
 	keys := []string{"a", "b", "c", "d"}
 	n := rapid.IntRange(1, 3).Draw(t, "nGroups")
 	for g := 1; g <= n; g++ {
